@@ -560,6 +560,27 @@ def run(prog, rep, tier):
                 rep.violation(R137, "%s|pieces|%d" % (p, len(lines_)), "%s: %s; removing the colour escapes would not give back the line's bytes" % (p.split("::")[-1], problems[0]))
     rep.floor(R137, 12, "(colour variants slicing their line around the datetime)")
 
+    # ------------------------------------------------------------ R13.8 datetime highlight decided for every ordering
+    import highlight
+    R138 = rep.rule("R13.8", "for every ordering of part and datetime bounds the pieces tile the part and the datetime colour covers exactly the datetime")
+    nh = 0
+    for hb in prog.bodies():
+        if "printer::printers" not in hb.path or "{closure" in hb.path:
+            continue
+        r_ = highlight.analyse(hb)
+        if r_ is None:
+            continue
+        nh += 1
+        n_ord, probs, info = r_
+        rep.examined(R138, hb.path, sample={"fn": hb.path.split("::")[-1], "orderings_enumerated": n_ord, "pieces": len(info["pieces"]), "comparisons": info["comparisons"], "problems": len(probs)})
+        rep.exhaustive.append({"domain": "weak orderings of (at, at_end, dt_beg, dt_end) with at<at_end, dt_beg<=dt_end", "size": n_ord, "where": hb.path.split("::")[-1]}) if hasattr(rep, "exhaustive") else None
+        if probs:
+            d0, w0 = probs[0]
+            rep.violation(R138, hb.path + "|highlight", "%s: with the indexes ordered %s, %s (%d of %d orderings affected); which bytes carry the datetime colour then depends on where a block boundary falls inside the line" % (
+                hb.path.split("::")[-1], d0, w0, len(set(p[0] for p in probs)), n_ord))
+    if nh < 4:
+        raise CheckerError("R13.8: only %d highlight loops recognised (4 on the pinned tree)" % nh)
+
     return rep.finish(
         "Static necessary-condition check of the decoration path: for all 8 flag combinations of all 4 dispatchers the selected variant writes, "
         "per printed line, the file field then the date field before any message bytes exactly when the flags say so (must-pass-through on the "
